@@ -237,6 +237,23 @@ def c20(name, text, k):
         if (t1 == t2) and hash(t1) != hash(t2): return f'equal tokens {t1!r} hash differently'
         if (t1 == t2) != (t2 == t1): return 'token equality is not symmetric'
     if not (copy.deepcopy(a) == a): return 'deepcopy != original'
+    # equality stays consistent with hash after the token was hashed and then edited through either setter
+    vt = [t for t in b.token_store if t.raw_text and hasattr(type(t), 'from_raw_text')]
+    if vt:
+        t = vt[k % len(vt)]; hash(t); {t}
+        donors = [x for x in a.token_store if type(x) is type(t) and x.raw_text != t.raw_text]
+        if donors:
+            new = donors[k % len(donors)].raw_text
+            try:
+                if hasattr(t, 'value') and k % 2: t.value = donors[k % len(donors)].value
+                else: t.raw_text = new
+            except Exception: new = None
+            if new is not None:
+                try: fresh_t = type(t).from_raw_text(t.raw_text)
+                except Exception: fresh_t = None
+                if fresh_t is not None and t == fresh_t and hash(t) != hash(fresh_t): return f'after an edit the token {t!r} equals a fresh token with the same text but hashes differently'
+                if fresh_t is not None and not (t == fresh_t): return f'after an edit the token {t!r} does not equal a fresh token with the same text'
+        b = PARSER.parse(text, models.File)
     toks = [t for t in b.token_store if t.raw_text]
     if toks:
         t = toks[k % len(toks)]
